@@ -15,7 +15,7 @@ EXPLANATION = (
 )
 BOUNDS = {
     "quick": dict(items="1..3 (n=3: kinds L,C,S; the stub-under-stub kind T only for n<=2)", value_box="targets/data positions in [-1e4,1e4], widths in (0,1000], spacing in [0,50], lower bound in [-1e4,1e4], upper in [-1e4,3e4] (any order)", lineSpacing="2 (never overridden by Force)", decisions_per_path=4000),
-    "thorough": dict(items="1..4 (n=4: label/stub kinds L,S only for the two-bound configurations)", value_box="as quick", decisions_per_path=4000),
+    "thorough": dict(items="1..4 (n=4: kinds L,S with 0/1 bound, kind L with two bounds)", value_box="as quick", decisions_per_path=4000),
 }
 OUTSIDE = ["layers of more than 4 items (3 in the quick tier)", "IEEE-754 rounding inside the solver (floats are exact reals here)", "widths <= 0", "lineSpacing other than 2"]
 ASSUMPTIONS = [
@@ -35,8 +35,9 @@ def _force_configs(tier):
     if tier == "quick":
         return F([2, 3]) + F([2], algs=("overlap", "simple"), bounds=((0, 100),), hists=("reconf", "engine2", "stale", "subset"))
     c = F([1, 2, 3], dens=(0.85, 0.5), stubws=(1, 5), bounds=((0, 100), (None, 100), (0, None), (-30, 45)))
-    c += F([2, 3], bounds=((0, 100), (None, 100)), hists=("twice", "reconf", "renodes", "engine2", "subset", "stale"))
-    c += F([4], bounds=((0, 100),))
+    c += F([2], bounds=((0, 100), (None, 100)), hists=("twice", "reconf", "renodes", "engine2", "subset", "stale"))
+    c += F([3], algs=("overlap", "simple"), bounds=((0, 100),), hists=("reconf", "engine2", "stale"), shards=4)
+    c += F([4], algs=("overlap", "simple"), bounds=((0, 100),), shards=8)
     c += F([2], vpsc="real")  # the real vpsc end to end (no contract stub)
     return c
 
@@ -45,8 +46,9 @@ def _layer_configs(tier):
     if tier == "quick":
         return layer.make_configs([1, 2]) + layer.make_configs([3], kinds="LCS")
     c = layer.make_configs([1, 2, 3])
-    c += layer.make_configs([4], walls=("", "l", "r"))
-    c += layer.make_configs([4], walls=("lr",), kinds="LS")
+    # four items: labels and stubs, without / with one bound; two bounds for labels only (sharded)
+    c += layer.make_configs([4], walls=("", "l", "r"), kinds="LS", extra=dict(shards=2))
+    c += layer.make_configs([4], walls=("lr",), kinds="L", extra=dict(shards=16))
     return c
 
 
